@@ -435,3 +435,100 @@ func init() {
 		}
 	}
 }
+
+// abstract-scope: a field selected inside a type condition takes its definition (argument list
+// and defaults) from the type the condition names, also when that is an interface inside an
+// implementing object whose own field declares other defaults.
+const c15ScopeSDL = `interface Paged { items(first: Int = 10): Int }
+interface Sorted implements Paged { items(first: Int = 11, by: String = "k"): Int }
+type Shelf implements Paged & Sorted { items(first: Int = 25, by: String = "name", reverse: Boolean = false): Int self: Shelf }
+union Any = Shelf
+type Query { shelf: Shelf paged: Paged sorted: Sorted any: Any }
+`
+
+func init() {
+	prev := registry["C15"].Run
+	registry["C15"].Run = func(c *explore.Ctx) {
+		prev(c)
+		s := c.Sub("abstract-scope", "an interface, an interface implementing it and an object implementing both, each declaring other defaults and arguments for one field; the field selected under every (enclosing type, type condition) combination through inline fragments and named fragments, nested twice", "ArgumentMap applies the defaults of the field definition of the type the innermost type condition names", "every document")
+		if s == nil || c.Shard != 0 {
+			return
+		}
+		schema, err := gqlparser.LoadSchema(&ast.Source{Name: "scope.graphql", Input: c15ScopeSDL})
+		if err != nil {
+			panic(err)
+		}
+		want := map[string]map[string]any{
+			"Paged":  {"first": 10},
+			"Sorted": {"first": 11, "by": "k"},
+			"Shelf":  {"first": 25, "by": "name", "reverse": false},
+		}
+		roots := map[string]string{"shelf": "Shelf", "paged": "Paged", "sorted": "Sorted", "any": "Any"}
+		conds := []string{"", "Paged", "Sorted", "Shelf"}
+		for root, rootType := range roots {
+			for _, c1 := range conds {
+				for _, c2 := range conds {
+					for _, named := range []bool{false, true} {
+						scope := rootType
+						open1, close1 := "", ""
+						if c1 != "" {
+							open1, close1, scope = "... on "+c1+" { ", " }", c1
+						}
+						inner := "items"
+						if c2 != "" {
+							inner, scope = "... on "+c2+" { items }", c2
+						}
+						q := "{ " + root + " { " + open1 + inner + close1 + " } }"
+						if named && c2 != "" {
+							q = "{ " + root + " { " + open1 + "...F" + close1 + " } } fragment F on " + c2 + " { items }"
+						}
+						if scope == "Any" {
+							continue // a union has no fields
+						}
+						doc, errs := gqlparser.LoadQuery(schema, q)
+						s.Executions++
+						if errs != nil {
+							s.Skipped++
+							continue
+						}
+						s.States++
+						s.Validated++
+						var items []*ast.Field
+						var collect func(ss ast.SelectionSet)
+						collect = func(ss ast.SelectionSet) {
+							for _, x := range ss {
+								switch n := x.(type) {
+								case *ast.Field:
+									if n.Name == "items" {
+										items = append(items, n)
+									}
+									collect(n.SelectionSet)
+								case *ast.InlineFragment:
+									collect(n.SelectionSet)
+								}
+							}
+						}
+						collect(doc.Operations[0].SelectionSet)
+						for _, fr := range doc.Fragments {
+							collect(fr.SelectionSet)
+						}
+						for _, f := range items {
+							var got map[string]any
+							r := guarded(0, 0, func() { got = f.ArgumentMap(map[string]any{}) })
+							s.Transitions++
+							if r.Panicked {
+								c.Report(s, explore.Violation{Key: "args/panic abstract-scope", Input: explore.J(q), Rendered: q, Detail: r.PanicVal})
+								continue
+							}
+							if !reflect.DeepEqual(normNum(normAny(got)), normNum(normAny(want[scope]))) {
+								c.Report(s, explore.Violation{Key: "args/value abstract-scope enclosing=" + rootType + " condition=" + scope, Input: explore.J(q), Rendered: q,
+									Detail: "items is selected on " + scope + ": its omitted arguments take the defaults of " + scope + ".items", Expected: goRepr(want[scope]), Observed: goRepr(got)})
+							}
+						}
+						s.Nontrivial++
+					}
+				}
+			}
+		}
+	}
+}
